@@ -294,6 +294,92 @@ def run_ctx(ctx):
                 ctx.fail(ctx.cur_key + "|" + e.kind, e.detail)
             finally:
                 ctx.end()
+    # (a') binary curves: the same requirement for eb_param_set / fb state (no model needed: the reference is a
+    # freshly initialised context holding only the last selection)
+    eb_ids = [(n_, v_) for n_, v_ in R.EH.get("relic_eb.h", {}).items()]
+    eb_ok = []
+    for n_, v_ in eb_ids:
+        rr = R.call("eb_param_set", v_)
+        if not rr.caught and R.L.eb_param_get() == v_:
+            eb_ok.append((n_, v_))
+    ctx.note("binary_parameter_sets", [n_ for n_, _ in eb_ok])
+    ebsz = K.get("sizeof_eb_st")
+    fbsz = K.get("sizeof_fb_st")
+
+    def eb_observe():
+        out = {}
+        g_ = R.mem(ebsz, 0)
+        r_ = R.mem(ebsz, 0)
+        kk = R.bn(0xC19C19C19C19C19C19C19C19C19C19C19C19C19C19C19)
+        R.call("eb_curve_get_gen", g_)
+
+        def enc(P):
+            n_ = R.call("eb_size_bin", P, 0).r
+            b_ = R.mem(n_, 0)
+            R.call("eb_write_bin", b_, n_, P, 0)
+            v = R.get(b_, n_)
+            R.free(b_)
+            return v.hex()
+        for fn in ("eb_mul_gen", "eb_mul", "eb_mul_lwnaf", "eb_mul_fix"):
+            if not R.has(fn):
+                continue
+            if fn == "eb_mul_gen":
+                rr = R.call(fn, r_, kk)
+            elif fn == "eb_mul_fix":
+                L_ = R.L
+                L_.eb_curve_get_tab.restype = ctypes.c_void_p
+                rr = R.call(fn, r_, L_.eb_curve_get_tab(), kk)
+            else:
+                rr = R.call(fn, r_, g_, kk)
+            out[fn] = None if rr.caught else enc(r_)
+        m_ = R.put(b"verif-c19-binary")
+        rr = R.call("eb_map", r_, m_, 16)
+        out["eb_map"] = None if rr.caught else enc(r_)
+        x_ = R.put((0x1F3A5C7E9B2D4F6081A3C5E7092B4D6F8A1C3E5072941B3D5F7).to_bytes(fbsz, "little"))
+        y_ = R.mem(fbsz, 0)
+        for fn in ("fb_inv", "fb_srt", "fb_sqr", "fb_slv"):
+            if R.has(fn):
+                rr = R.call(fn, y_, x_)
+                out[fn] = None if rr.caught else R.get(y_, fbsz).hex()
+        for p_ in (g_, r_, m_, x_, y_):
+            R.free(p_)
+        R.bn_free(kk)
+        return out
+
+    if len(eb_ok) >= 2:
+        eb_fresh = {}
+        for n_, v_ in eb_ok:
+            blk = R.mem(sz_ctx, 0)
+            R.raw("core_set", blk)
+            R.L.core_init()
+            R.ctx = R.S.vf_core_get()
+            if ctx.begin("fresh|eb:%s" % n_, n_, budget=300):
+                R.call("eb_param_set", v_)
+                eb_fresh[n_] = eb_observe()
+                ctx.ok()
+                ctx.end()
+            R.L.core_clean()
+            R.raw("core_set", old)
+            R.ctx = old
+            R.free(blk)
+        for step in range(ctx.n(10, 150)):
+            n_, v_ = eb_ok[rng.randrange(len(eb_ok))]
+            if not ctx.begin("switch|eb:%s" % n_, [n_, step], budget=300):
+                continue
+            try:
+                R.call("eb_param_set", v_)
+                obs = eb_observe()
+                for what, val in obs.items():
+                    if n_ in eb_fresh:
+                        ctx.check(val == eb_fresh[n_].get(what), "switch|eb:%s|%s-differs-from-fresh" % (n_, what),
+                                  {"got": str(val)[:80], "fresh": str(eb_fresh[n_].get(what))[:80]})
+            except MonitorViolation as e:
+                ctx.fail(ctx.cur_key + "|" + e.kind, e.detail)
+            finally:
+                ctx.end()
+        # leave a prime curve active for what follows
+        R.call("ep_param_set", ids[0][1])
+
     # (b) independent contexts, interleaved
     nctx = 3
     blks = []
